@@ -141,6 +141,133 @@ func knapOptimumDP(items []item, W int) int {
 	return prev[W]
 }
 
+// checkKnapValue: value-only lines (huge limits, ≤ 16 items): the optimum by brute force over all
+// subsets (independent of the size of the limit) and the validity flag computed by the harness.
+func checkKnapValue(items []item, W int, out string, line string) *core.Failure {
+	for _, x := range items {
+		if x.w < 0 {
+			return nil
+		}
+	}
+	if W < 0 || len(items) > bruteMaxItems {
+		return nil
+	}
+	var got int
+	var valid string
+	if n, _ := fmt.Sscanf(out, "value=%d valid=%s", &got, &valid); n != 2 {
+		return fail("knapsack-output", "%q: Knapsack answered %q on a valid input", line, out)
+	}
+	if valid != "true" {
+		return fail("knapsack-invalid", "%q: the returned selection is invalid: %s", line, valid)
+	}
+	best, bestMask := 0, 0
+	for mask := 0; mask < 1<<len(items); mask++ {
+		w, v := 0, 0
+		for i := range items {
+			if mask>>i&1 == 1 {
+				w += items[i].w
+				v += items[i].v
+			}
+		}
+		if w <= W && v > best {
+			best, bestMask = v, mask
+		}
+	}
+	if got != best {
+		return fail("knapsack-suboptimal", "%q: the selection has value %d, but subset mask %b has value %d within the limit", line, got, bestMask, best)
+	}
+	return nil
+}
+
+// checkHistory: `graphh` cases. The operations are replayed on an own map-of-sets; a `cliques`
+// answer is judged when the CURRENT arc set is symmetric and every arc ends in a node.
+func checkHistory(c core.Case, out []string) *core.Failure {
+	nodes := map[int]bool{}
+	arcs := map[[2]int]bool{}
+	for i := 1; i < len(c.Lines) && i < len(out); i++ {
+		t := core.Toks(c.Lines[i])
+		if len(t) == 0 || out[i] == "bad-op" || out[i] == "dead" {
+			continue
+		}
+		line := fmt.Sprintf("%s … / line %d %q", c.Lines[0], i, c.Lines[i])
+		if out[i] == "panic" {
+			return fail("graph-history-panic", "%s panicked", line)
+		}
+		if j := strings.Index(out[i], " LEDGER:"); j >= 0 {
+			return fail("result-or-input-changed-later", "%s: %s", line, out[i][j+8:])
+		}
+		atoi := func(s string) int { v, _ := strconv.Atoi(s); return v }
+		switch t[0] {
+		case "init":
+			nodes, arcs = map[int]bool{}, map[[2]int]bool{}
+		case "node":
+			nodes[atoi(t[1])] = true
+		case "und":
+			a, b := atoi(t[1]), atoi(t[2])
+			nodes[a], nodes[b] = true, true
+			arcs[[2]int{a, b}], arcs[[2]int{b, a}] = true, true
+		case "arc":
+			a, b := atoi(t[1]), atoi(t[2])
+			nodes[a] = true
+			arcs[[2]int{a, b}] = true
+		case "len":
+			if out[i] != strconv.Itoa(len(nodes)) {
+				return fail("graph-len", "%s: Len() = %s, the graph has %d nodes", line, out[i], len(nodes))
+			}
+		case "paths":
+			if out[i] != "ok" {
+				return fail("graph-history-paths", "%s: %s", line, out[i])
+			}
+		case "cliques":
+			okG := true
+			for e := range arcs {
+				if !arcs[[2]int{e[1], e[0]}] || !nodes[e[1]] {
+					okG = false
+				}
+			}
+			if !okG {
+				continue
+			}
+			var labels []int
+			for v := range nodes {
+				labels = append(labels, v)
+			}
+			sort.Ints(labels)
+			pos := map[int]int{}
+			for k, v := range labels {
+				pos[v] = k
+			}
+			a := make(adj, len(labels))
+			for k := range a {
+				a[k] = make([]bool, len(labels))
+			}
+			for e := range arcs {
+				a[pos[e[0]]][pos[e[1]]] = true
+			}
+			got, ok := parseCliques(out[i])
+			if !ok {
+				return fail("cliques-output", "%s: GetMaximalCliques answered %q", line, out[i])
+			}
+			var mapped [][]int
+			for _, cl := range got {
+				var d []int
+				for _, v := range cl {
+					k, in := pos[v]
+					if !in {
+						return fail("cliques-not-maximal-clique", "%s: the reported clique %v contains %d, which is not a node of the graph as it is now (nodes %v)", line, cl, v, labels)
+					}
+					d = append(d, k)
+				}
+				mapped = append(mapped, d)
+			}
+			if f := compareCliquesLarge(mapped, a, line+fmt.Sprintf(" (vertex k = label %v[k])", labels)); f != nil {
+				return f
+			}
+		}
+	}
+	return nil
+}
+
 // attainable returns the set of subset totals of the values.
 func attainable(items []item) map[int]bool {
 	a := map[int]bool{}
@@ -806,6 +933,9 @@ func check(c core.Case, out []string) *core.Failure {
 			}
 			var f *core.Failure
 			switch t[0] {
+			case "knapv":
+				W, _ := strconv.Atoi(t[1])
+				f = checkKnapValue(items, W, out[i], c.Lines[0]+" / "+c.Lines[i])
 			case "knap":
 				W, _ := strconv.Atoi(t[1])
 				f = checkKnap(items, W, out[i], c.Lines[0]+" / "+c.Lines[i])
@@ -848,6 +978,8 @@ func check(c core.Case, out []string) *core.Failure {
 				return fail(key, "%q / %q: answered %s, specification gives %s", c.Lines[0], c.Lines[i], out[i], ws)
 			}
 		}
+	case "graphh":
+		return checkHistory(c, out)
 	case "graph":
 		gc, ok := parseGraph(hdr[3:])
 		if !ok {
@@ -890,6 +1022,8 @@ func nonTrivial(c core.Case, out []string) bool {
 		return live && len(hdr)-3 >= 6
 	case "map":
 		return live && len(hdr)-3 >= 2
+	case "graphh":
+		return live && len(c.Lines) >= 6
 	case "graph":
 		n, _ := strconv.Atoi(hdr[3])
 		return live && n >= 3 && len(hdr) > 4
